@@ -113,12 +113,42 @@ def nontrivial(hist):
     return False
 
 
-def final_answers(out, n_final):
-    return out[-n_final:] if len(out) >= n_final else None
+def final_answers(out, n_final, n_cmds=None):
+    """answers to the final queries, taken BY POSITION in the command list (a run that ends early — RecursionError — has a
+    shorter output; taking the last n entries would compare misaligned windows: false alarm of soak seed 12)."""
+    if n_cmds is None:
+        return out[-n_final:] if len(out) >= n_final else None
+    start = n_cmds - n_final
+    return out[start:] if len(out) > start else None
 
 
-def evaluate(cases, ambient):
-    """cases: list of (hist, final). Returns per case a dict with both runs."""
+def evaluate(cases, ambient, depth=0):
+    """cases: list of (hist, final). Returns per case a dict with both runs.
+
+    An intermediate OBSERVATION whose answer is undefined (RecursionError on a cyclic relation structure, findings R14/R3)
+    ends the implementation run at that point, so nothing after it can be compared with the run without observations.
+    Such an observation is removed from the history and the case is evaluated again (the remaining observations are
+    still checked); `dropped_undefined_observations` counts them."""
+    res = _evaluate(cases, ambient)
+    if depth >= 6:
+        return res
+    redo = {}
+    for i, r in enumerate(res):
+        o1, full, h = r['impl_full'], r['full'], r['hist']
+        k = len(o1) - 1
+        if 0 <= k < len(h) and len(o1) < len(full) and o1[-1] == 'undef' and h[k][0] not in MUTATORS:
+            redo[i] = (h[:k] + h[k + 1:], r['final'])
+    if redo:
+        idx = sorted(redo)
+        again = evaluate([redo[i] for i in idx], ambient, depth + 1)
+        for i, r2 in zip(idx, again):
+            r2['dropped_undefined_observations'] = r2.get('dropped_undefined_observations', 0) + 1
+            r2['original_hist'] = res[i].get('original_hist', res[i]['hist'])
+            res[i] = r2
+    return res
+
+
+def _evaluate(cases, ambient):
     full = [h + f + [['collisions']] for h, f in cases]
     bare = [strip(h) + f + [['collisions']] for h, f in cases]
     impl = stream.run_impl_many(full + bare, [], run_cls=RUN_CLS)
@@ -132,7 +162,7 @@ def evaluate(cases, ambient):
         res.append({'hist': h, 'final': f, 'full': full[i], 'bare': bare[i], 'impl_full': o1, 'impl_bare': o2,
                     'model_full': m1, 'model_bare': m2,
                     'dis_full': exportrun.compare(full[i], o1, m1), 'dis_bare': exportrun.compare(bare[i], o2, m2),
-                    'fin_full': final_answers(o1, nf), 'fin_bare': final_answers(o2, nf),
+                    'fin_full': final_answers(o1, nf, len(full[i])), 'fin_bare': final_answers(o2, nf, len(bare[i])),
                     'mfin_full': m1[-nf:], 'mfin_bare': m2[-nf:]})
     return res
 
@@ -141,9 +171,13 @@ def differs(r):
     """the property predicate on the implementation: final answers of the two runs."""
     a, b = r['fin_full'], r['fin_bare']
     if a is None or b is None:
-        # one of the runs ended early (exception / recursion): compare what both produced at the end
+        # one of the runs ended before the final queries (exception / recursion): compare what both produced at the end
         return (a is None) != (b is None) or r['impl_full'][-1:] != r['impl_bare'][-1:]
-    return a[:-1] != b[:-1]
+    nf = len(r['final']) + 1
+    if len(a) == nf and len(b) == nf:
+        return a[:-1] != b[:-1]
+    # a run ended during the final queries: the answers given so far must agree, and both must end at the same query
+    return a != b
 
 
 def shrink(case, still):
@@ -269,6 +303,7 @@ def run(tier, seed):
         'samples': [results[len(corpus)]['hist']] if len(results) > len(corpus) else [results[0]['hist']],
         'observation_kinds': dict(obs_kinds), 'input_distribution': feats,
         'histories_with_different_final_answers': n_diff,
+        'dropped_undefined_observations': sum(r.get('dropped_undefined_observations', 0) for r in results),
         'traces_validated_against_impl': 2 * len(results) - n_dis, 'disagreements': n_dis,
         'corpus_programs': len(corpus), 'known_findings_printed': oc.known,
         'lean': {k: lean.get(k) for k in ('build_ok', 'build_s', 'lean_s', 'failed', 'forbidden_hits')},
